@@ -1,6 +1,7 @@
 package wired
 
 import (
+	gethcommon "github.com/ethereum/go-ethereum/common"
 	"math/big"
 	"time"
 
@@ -32,7 +33,14 @@ func VerifC14_Assign() {
 	hasFee := make([]bool, nv)
 	mev := make([]bool, nv)
 	for i := 0; i < nv; i++ {
-		env.AddValidator(i, int64(10_000_000*(i+1)), ChainA, ChainB)
+		env.AddValidator(i, int64(10_000_000*(i+1)))
+		// accounts on both chains under different addresses, the job's chain listed second
+		if err := env.Valset.AddExternalChainInfo(env.Ctx, Vals[i], []*valsettypes.ExternalChainInfo{
+			{ChainType: "evm", ChainReferenceID: ChainB, Address: models.EthAddrs[i+3], Pubkey: gethcommon.HexToAddress(models.EthAddrs[i+3]).Bytes()},
+			{ChainType: "evm", ChainReferenceID: ChainA, Address: models.EthAddrs[i], Pubkey: gethcommon.HexToAddress(models.EthAddrs[i]).Bytes()},
+		}); err != nil {
+			panic(err)
+		}
 		jailed[i] = sym.Bool("jailed")
 		env.Staking.Find(Vals[i]).Jailed = jailed[i]
 		// the MEV trait is per chain account: none, on the job's chain, or (validator 0) on the other chain only
